@@ -267,6 +267,17 @@ def frameless(kind):
     return math.sqrt
 
 
+def goal_whose_sampler_exits(env):
+    class G:
+        def is_satisfied(self, s):
+            return env.is_satisfied(s)
+
+        def sample_goal(self):
+            raise SystemExit(7)
+
+    return G()
+
+
 def goal_without_frames(env, kind):
     cb = frameless(kind)
 
@@ -291,6 +302,8 @@ def run_scenario(sc, fault=None, as_false=False, with_distance=False, whole=None
         FROM[sc["variant"]](space, start, env)
         space.set_longest_valid_segment_fraction(sc["space"]["frac"])
     goal_obj = goal_without_frames(env, whole[1]) if whole and whole[0] == "goal" else env
+    if whole and whole[0] == "sample":
+        goal_obj = goal_whose_sampler_exits(env)
     valid_cb = frameless(whole[1]) if whole and whole[0] == "valid" else None
     pd = FROM[sc["variant"]](space, start, goal_obj)
     cfg = PlannerConfig(seed=sc["seed"])
@@ -592,6 +605,22 @@ def c20(inp, rep):
                 rep.distinct.add(hash((sc["id"], target, kind, "whole")))
                 if [c[0] for c in calls] != [c[0] for c in ref_calls] or [c[1] for c in calls] != [c[1] for c in ref_calls]:
                     rep.violate("%s|%s-callback|%s|differs-from-returning-False" % (sc["planner"], target, kind), "a %s callback that fails on every call (%s) does not behave like one returning False (results %r vs %r)" % (target, kind, [c[0] for c in calls], [c[0] for c in ref_calls]), det)
+        # a goal SAMPLER that raises SystemExit: the core's answer to a failing goal sampler is an error from the
+        # planner call - not the end of the process, and nothing but an ordinary exception for the caller
+        if sc["planner"] == "RRTConnect" or (sc["planner"] != "PRM" and sc.get("bias", 0) > 0):
+            det = {"scenario": {k: sc[k] for k in ("id", "variant", "planner", "seed")}, "fault": {"target": "sample_goal", "kind": "sysexit", "placement": "every call"}}
+            rep.count("fault_runs")
+            rep.count("goal_sampler_exit_runs")
+            PENDING["det"] = det
+            PENDING["planner"] = sc["planner"]
+            PENDING["target"] = "sample_goal"
+            try:
+                run_scenario(sc, None, whole=("sample", "sysexit"))
+            except Exception:  # noqa: BLE001  (planning errors arrive as plain Exception)
+                pass
+            except BaseException as e:  # noqa: BLE001
+                rep.violate("%s|sample_goal|exception-escaped|%s" % (sc["planner"], type(e).__name__), "a goal sampler raising SystemExit made the planner call raise %s" % type(e).__name__, det)
+            PENDING["det"] = None
         for target, place in placements:
             # goal faults are also run against a goal object that implements the optional distance_goal
             wd = [False, True] if target == "goal" and not (light and (is_hist or place.get("k", 0) >= 3)) else [False]
